@@ -1237,7 +1237,7 @@ def _err(e):
 
 
 _LAST = {}
-_TIER = ["quick"]
+_TIER = [None]           # tier of the run = tier of the first gen_cases call (the directed search asks for "thorough")
 _SPENT = [0.0]            # wall-clock seconds spent driving the real code in this process
 IMPL_BUDGET = {"quick": 180.0, "thorough": 1500.0}
 CASE_BUDGET = 8.0         # a scenario slower than this counts as a hang (clean tree: 1-40 ms, a long burst 0.5 s)
@@ -1251,7 +1251,7 @@ def _run(case):
     lines = case["lines"]
     if _DEAD[0] >= 3:
         return ["err deadlock-seen-before"] * len(lines), []
-    if _SPENT[0] > IMPL_BUDGET.get(_TIER[0], 180.0):
+    if _SPENT[0] > IMPL_BUDGET.get(_TIER[0] or "quick", 180.0):
         return ["err time-budget-used-up"] * len(lines), []
     t0 = time.time()
     try:
@@ -1700,7 +1700,8 @@ def corpus():
 
 
 def gen_cases(rng, tier):
-    _TIER[0] = tier
+    if _TIER[0] is None:
+        _TIER[0] = tier
     L, A, R = _prog_info()
     quick = tier == "quick"
     # sequential scenarios
